@@ -4,6 +4,7 @@
 //! property logic: every accept/reject decision is taken by TLC on the TLA+ specification.
 
 mod certdrv;
+mod clidrv;
 mod csrdrv;
 mod csrparsedrv;
 mod der;
@@ -49,6 +50,7 @@ fn main() {
 		"import" => importdrv::run(&args[2], &args[3], &args[4], &args[5]),
 		"csr-parse" => csrparsedrv::run(&args[2], &args[3]),
 		"path-cases" => pathdrv::run_cases(&args[2], &args[3]),
+		"cli-cases" => clidrv::run_cases(&args[2], &args[3], &args[4], &args[5]),
 		"dn-cases" => dndrv::run_cases(&args[2], &args[3]),
 		"dn-random" => dndrv::run_random(&args[2], args[3].parse().unwrap(), args[4].parse().unwrap()),
 		other => {
